@@ -305,6 +305,42 @@ where
             cx.viol_sig(format!("write_element:D{}:{}", D, ty), detail.set("what", "the written tokens are not the row-major elements in decimal / literal form"));
         }
     }
+    // the same tensor written behind pending output that leaves the writer's buffer 0, 1, 2 bytes short of full, exactly
+    // full after the first element, and one byte short of that (separators and elements then straddle the buffer edge)
+    if written == want_text.as_bytes() && (ty == "i64" || ty == "String" || ty == "u8") {
+        let buf = Writer::verif_buf_size();
+        let t0 = tokens[0].len();
+        for k in [0usize, 1, 2, t0, t0 + 1, t0 + 2] {
+            if k > buf {
+                continue;
+            }
+            let prefill = "p".repeat(buf - k);
+            let mut v: Vec<u8> = Vec::new();
+            {
+                let mut w = call!(cx, "new", Writer::new(Box::new(&mut v)));
+                call!(cx, "write", w.write(&prefill));
+                call!(cx, "write", w.write(&t));
+                call!(cx, "flush", w.flush());
+            }
+            cx.rep.inc("writes_behind_pending_output");
+            if v.len() != prefill.len() + want_text.len() || &v[prefill.len()..] != want_text.as_bytes() || v[..prefill.len()].iter().any(|&b| b != b'p') {
+                let tail = &v[prefill.len().min(v.len())..];
+                cx.viol_sig(
+                    format!("write_behind_pending_output:D{}:{}", D, ty),
+                    Json::obj()
+                        .set("what", "the tensor's text written behind pending output of almost one buffer is not its row-major text")
+                        .set("type", ty)
+                        .set("pending_bytes_before", buf - k)
+                        .set("buffer_size", buf)
+                        .set("got_len", v.len())
+                        .set("want_len", prefill.len() + want_text.len())
+                        .set("got_tail", show_bytes(&tail[..tail.len().min(200)]))
+                        .set("want_tail", show_bytes(&want_text.as_bytes()[..want_text.len().min(200)])),
+                );
+                break;
+            }
+        }
+    }
     let mut reader = reader_over(&written);
     let back = call!(cx, "read", Tensor::<T, D>::read(dims, &mut reader));
     cx.rep.inc("roundtrips");
@@ -715,7 +751,9 @@ fn run_shape<const D: usize>(dims: [usize; D], cx: &mut Cx) {
                 call!(cx, "clone_from", d.clone_from(&a));
                 cx.rep.inc("clone_from_checks");
                 let ok = call!(cx, "eq", d == a) && *call!(cx, "dims", d.dims()) == dims && call!(cx, "iter", d.iter().eq(data.iter()))
-                    && !panics(|| drop(d[idxs[len - 1]]));
+                    && !panics(|| {
+                        let _ = d[idxs[len - 1]];
+                    });
                 if !ok && !reported_cf {
                     reported_cf = true;
                     cx.viol(
